@@ -114,6 +114,15 @@ def run(chk):
     n_gen = chk.scale(120, 1500)
     for i in range(n_gen):
         sources.append((gen_c.program(chk.rng, placement=chk.rng.choice(["zp", "mixed", "abs"]), shorts=chk.rng.random() < 0.4, probe=("lte16", "zero-compare", "reg-compare")).text, ()))
+    # pointer constants placed around the zero-page boundary (the operand is the constant itself: $FF is the last
+    # zero-page address, $100 the first absolute one), accessed in every way
+    for addrs in ([0xfd, 0x100, 0x101, 0x80], [0xfc, 0x100, 0x1ff, 0x200], [0x100, 0xfd, 0x7f, 0x1000]):
+        decl = "".join("unsigned char *const P%d = 0x%x;\n" % (k, a) for k, a in enumerate(addrs))
+        body = "".join("*P%d = %d; i = *P%d; P%d[1] = i; i = P%d[X]; P%d[Y] = i; if (*P%d == 3) i++; P%d[2]++; " % ((k, k) + (k,) * 6) for k in range(len(addrs)))
+        sources.append((decl + "unsigned char i;\nvoid main() { " + body + "}\n", ()))
+    # recorded findings: their exemplars are measured like every other program (signature = the finding's)
+    known_src = {k["exemplar"]: k["signature"] for k in chk.known if k.get("exemplar")}
+    sources += [(e, ()) for e in known_src]
     nfun = 0
     for (src, defs) in sources:
         for level in (0, 1):
@@ -142,7 +151,7 @@ def run(chk):
                 if total != f["size"]:
                     diffs = [(show_line(l).strip(), l[3] if l[0] == "I" else l[2] if l[0] == "N" else 0, int(n)) for l, n in zip(ls, lens)
                              if (l[0] == "I" and l[3] != int(n))]
-                    chk.fail("size-mismatch", "function %s: size_bytes() = %d but it assembles to %d bytes (%s)" % (unhx(f["name"]), f["size"], total, diffs[:3]),
+                    chk.fail(known_src.get(src, "size-mismatch"), "function %s: size_bytes() = %d but it assembles to %d bytes (%s)" % (unhx(f["name"]), f["size"], total, diffs[:3]),
                              {"source": src, "level": level, "function": unhx(f["name"]), "reported": f["size"], "assembled": total, "lines": diffs})
         if len(chk.coverage["samples"]) < 4:
             chk.sample({"program": src[:300]})
